@@ -35,6 +35,11 @@ def gen_case(rng):
             cc["on_prop"] = is_prop
             if cc["kind"] == "select" and cc.get("needs_prop") and not is_prop:
                 cc["query"], cc["needs_prop"] = SG.CSELECTS[1]
+            if not is_prop and rng.random() < 0.12:
+                # a validator SHACL-SPARQL forbids, on a node shape (so that it is certainly run): MINUS / VALUES / re-binding
+                # a pre-bound variable - $this, $value or the component's own parameter
+                cc["query"] = rng.choice(SG.FORBIDDEN_ASKS if cc["kind"] == "ask" else SG.FORBIDDEN_CSELECTS).replace("$arg", "$" + cc["var"]).replace("?arg", "?" + cc["var"])
+                cc["forbidden"] = True
             s["comps"].append(("custom", cc))
         if rng.random() < 0.3:
             s["comps"].insert(0, S.gen_leaf(rng, is_prop, nodes, lits))
@@ -46,7 +51,8 @@ def metamorphic(cases, obs):
     bad = []
     for i, (c, o) in enumerate(zip(cases, obs)):
         forbidden = any(any(f in sc["select"] for f in ("MINUS", "VALUES", "SERVICE", "AS ?this", "{ SELECT")) and not sc["deact"]
-                        for s in c["shapes"] for cmp in s["comps"] if cmp[0] == "sparql" for sc in cmp[1])
+                        for s in c["shapes"] for cmp in s["comps"] if cmp[0] == "sparql" for sc in cmp[1]) or \
+            any(cmp[1].get("forbidden") for s in c["shapes"] for cmp in s["comps"] if cmp[0] == "custom")
         if forbidden and not (o[0] == "err" and o[1] == "ValFailure"):
             bad.append((i, "a query that SHACL-SPARQL forbids did not produce a validation failure: %r" % (o[:2],)))
     return bad
@@ -58,7 +64,8 @@ def main(tier, seed, replay=None):
     # cases with a forbidden query are decided by the metamorphic relation only (the text screens are not modelled)
     def is_forbidden(c):
         return any(any(f in sc["select"] for f in ("MINUS", "VALUES", "SERVICE", "AS ?this", "{ SELECT")) and not sc["deact"]
-                   for s in c["shapes"] for cmp in s["comps"] if cmp[0] == "sparql" for sc in cmp[1])
+                   for s in c["shapes"] for cmp in s["comps"] if cmp[0] == "sparql" for sc in cmp[1]) or \
+            any(cmp[1].get("forbidden") for s in c["shapes"] for cmp in s["comps"] if cmp[0] == "custom")
     modelled = [c for c in cases if not is_forbidden(c)]
     screened = [c for c in cases if is_forbidden(c)]
     obs_screened = [S.run_validate(c["data"], c["sg"]) for c in screened]
@@ -72,7 +79,7 @@ def main(tier, seed, replay=None):
 
     return EC.standard_main(
         PROP, ["Props/C05.v"], tier, seed, modelled,
-        rule="case = 1-3 node/property shapes with sh:sparql constraints (8 SELECT templates with $this/$PATH/?value/?path/?failure/extra variables, message templates with {$var}/{?var}, sh:prefixes, deactivated) and SPARQL-based constraint components (ASK and SELECT validators with a parameter), optionally next to a core component; the solutions of every query for every candidate focus/value node are obtained by running the declared query directly through rdflib with the SHACL-SPARQL pre-bindings and handed to the model as data; %d further cases carry a query SHACL-SPARQL forbids (MINUS, VALUES, SERVICE, AS ?this, nested SELECT) and must end in a validation failure; message templates: both substitution sites on random templates (brace and sigil soup, unterminated and empty placeholders) and bindings (values with braces, backslashes, placeholder-like text) = the model's one-pass verbatim substitution" % len(screened),
+        rule="case = 1-3 node/property shapes with sh:sparql constraints (8 SELECT templates with $this/$PATH/?value/?path/?failure/extra variables, message templates with {$var}/{?var}, sh:prefixes, deactivated) and SPARQL-based constraint components (ASK and SELECT validators with a parameter), optionally next to a core component; the solutions of every query for every candidate focus/value node are obtained by running the declared query directly through rdflib with the SHACL-SPARQL pre-bindings and handed to the model as data; %d further cases carry a query SHACL-SPARQL forbids (MINUS, VALUES, SERVICE, AS ?this, nested SELECT, in sh:sparql constraints and in ASK/SELECT validators of components, including re-binding the component's own parameter) and must end in a validation failure; message templates: both substitution sites on random templates (brace and sigil soup, unterminated and empty placeholders) and bindings (values with braces, backslashes, placeholder-like text) = the model's one-pass verbatim substitution" % len(screened),
         what="results differ from 'one result per distinct solution, each with the messages of its own bindings' (Props.C05)",
         metamorphic=meta,
         extra_checks=lambda: MC.run(F.rng_for(seed, PROP + "/messages"), 600 if tier == "quick" else 8000),
